@@ -123,6 +123,8 @@ fn c03_check(map: &AnyMap, s: &State, probes: &mut HistProbes, findings: &mut Ve
         cell_id_tx: &|o, d| fast_stm::atomically(|t| map.cell_id_tx(t, o, d)),
         iter_cells: &|o| map.iter_cells(o),
         i_cell: &|o, d| map.i_cell(o, d),
+        custom: &|k, d| map.custom_orbit(k, d),
+        custom_tx: &|k, d| fast_stm::atomically(|t| map.custom_orbit_tx(t, k, d)),
     };
     for f in check_ids_orbits(s, &q, &darts, &mut probes.c03_queries) {
         findings.push(StepFinding { step, finding: f });
